@@ -365,3 +365,53 @@ impl Model for KAsc {
         Val::V(i, Box::new(l(vec![])))
     }
 }
+
+/// a struct that derives `Default`, used as the type of a SKIPPED field
+#[derive(BorshSerialize, BorshDeserialize, BorshSchema, Clone, Debug, PartialEq, Default)]
+pub struct SInnerD {
+    pub x: u32,
+    pub y: String,
+}
+impl Model for SInnerD {
+    fn describe() -> String {
+        "(prod (struct SInnerD (x y) (0 0)) (prim u32) (text string))".into()
+    }
+    fn from_val(v: &Val) -> Option<Self> {
+        let f = list(v, 2)?;
+        Some(SInnerD { x: u32::from_val(&f[0])?, y: String::from_val(&f[1])? })
+    }
+    fn to_val(&self) -> Val {
+        l(vec![self.x.to_val(), self.y.to_val()])
+    }
+}
+
+/// skipped fields of a derived struct type and of `Cow<str>`: they come back as `Default`
+#[derive(BorshSerialize, BorshDeserialize, BorshSchema, Clone, Debug, PartialEq)]
+pub struct SOuter {
+    pub a: u8,
+    #[borsh(skip)]
+    pub b: SInnerD,
+    pub c: Vec<u8>,
+    #[borsh(skip)]
+    pub d: std::borrow::Cow<'static, str>,
+}
+impl Model for SOuter {
+    fn describe() -> String {
+        "(prod (struct SOuter (a b c d) (0 1 0 1)) (prim u8) (prod (struct SInnerD (x y) (0 0)) (prim u32) (text string)) (seq vec (prim u8)) (wrap cow (text str)))".into()
+    }
+    fn from_val(v: &Val) -> Option<Self> {
+        let f = list(v, 4)?;
+        Some(SOuter {
+            a: u8::from_val(&f[0])?,
+            b: SInnerD::from_val(&f[1])?,
+            c: Vec::<u8>::from_val(&f[2])?,
+            d: std::borrow::Cow::<'static, str>::from_val(&f[3])?,
+        })
+    }
+    fn to_val(&self) -> Val {
+        l(vec![self.a.to_val(), SInnerD::default().to_val(), self.c.to_val(), std::borrow::Cow::<'static, str>::default().to_val()])
+    }
+    fn to_repr(&self) -> Val {
+        l(vec![self.a.to_repr(), self.b.to_repr(), self.c.to_repr(), self.d.to_repr()])
+    }
+}
